@@ -388,6 +388,7 @@ def sumKeys (g : κ → Int) : List κ → Int
   | [] => 0
   | k :: t => g k + sumKeys g t
 
+omit [DecidableEq κ] in
 theorem sumKeys_zero (ks : List κ) : sumKeys (fun _ => (0 : Int)) ks = 0 := by
   induction ks with
   | nil => rfl
